@@ -4,7 +4,7 @@
      small d    payload shorter than 2^31 bytes    ps_ok ps    per-sector progress is 0 or >= 16 (header atomic)
      old_ok F   the old file is absent/empty or has at least the 16 header bytes
      0 < now    the clock at load time is positive *)
-From CppcmsV Require Import Base.Tac Base.Sweep C18.Defs C18.Proofs C18.Crash C18.History C18.Sid C18.Full C18.Link C18.Burst gen.Gen_crc.
+From CppcmsV Require Import Base.Tac Base.Sweep C18.Defs C18.Proofs C18.Crash C18.History C18.Sid C18.Full C18.Link C18.Burst C18.Examples gen.Gen_crc.
 Local Open Scope N_scope.
 
 (* ---- 1. crash safety: every crash state of every save over every old file ----
@@ -27,9 +27,7 @@ Example C18_crash_safe_nonvacuous :
   read_from_file 100 (crash_file w_F (new_image 6000 w_new) [22]) = Some (6000%Z, w_new) /\
   read_from_file 100 (crash_file [] (new_image 6000 w_new) [0; 600]) = None /\
   collision 100 w_F 6000 w_new (read_from_file 100 (crash_file w_F (new_image 6000 w_new) w_ps)).
-Proof.
-  split; [exact witness_hyps|]. repeat (split; [vm_compute; reflexivity|]). exact witness_is_collision.
-Qed.
+Proof. exact ex_C18_crash_safe_nonvacuous. Qed.
 
 (* the family named in the property text: p bytes of the write stream (0, 16 = header call, byte prefix of the data call,
    total = both calls) x any subset of sectors having reached the disk *)
@@ -92,7 +90,7 @@ Print Assumptions C18_torn_window_detected.
 Example C18_burst_nonvacuous :
   w_new = [98] ++ [72; 69; 76; 76; 79] ++ [] /\ w_mix = [98] ++ [9; 67; 61; 151; 78] ++ [] /\ crc32 w_new = crc32 w_mix /\
   crc32 ([1] ++ [2; 3; 4; 5] ++ [6]) <> crc32 ([1] ++ [2; 3; 4; 6] ++ [6]).
-Proof. repeat split; try reflexivity. vm_compute. discriminate. Qed.
+Proof. exact ex_C18_burst_nonvacuous. Qed.
 
 (* ---- 3. what load returns lies inside the file and has the length of the header ---- *)
 Theorem C18_read_in_bounds : forall now f t' d', read_from_file now f = Some (t', d') ->
@@ -134,20 +132,10 @@ Theorem C18_history_save_load : forall ops now t d,
 Proof. exact history_save_load. Qed.
 Print Assumptions C18_history_save_load.
 
-Definition ex_ops : list op :=
-  [OSave 5000 w_old; OGc 100; OCrash 6000 w_new w_ps; OLoad 100; OGc 5500; OCrash 7000 [1; 2; 3] [0; 19]].
 Example C18_history_nonvacuous :
   Forall op_ok ex_ops /\ read_from_file 100 (cur (run ex_ops)) = Some (6000%Z, w_mix) /\
   In (6000%Z, w_new) (saves_of ex_ops).
-Proof.
-  split.
-  - destruct witness_hyps as (A & B & C & D & E & G).
-    assert (ps_ok [0; 19]) as P2 by (constructor; [left; reflexivity|constructor; [right; lia|constructor]]).
-    unfold ex_ops. repeat (apply Forall_cons; [cbn [op_ok]|]); [| | | | | |apply Forall_nil];
-      repeat split; try exact I; try assumption; try (unfold s64_ok; lia);
-      try (apply bytes_okb_spec; vm_compute; reflexivity); try (unfold small; vm_compute; reflexivity).
-  - split; [vm_compute; reflexivity|]. cbn. right. left. reflexivity.
-Qed.
+Proof. exact ex_C18_history_nonvacuous. Qed.
 
 (* ---- 6. gc and load on a directory ---- *)
 Theorem C18_gc_exact : forall now d nm f,
@@ -182,16 +170,12 @@ Theorem C18_load_spec : forall now nm d,
 Proof. exact load_spec. Qed.
 Print Assumptions C18_load_spec.
 
-Definition nmA : name := repeat 97 32.
-Definition nmB : name := repeat 66 32.
-Definition nmX : name := repeat 120 32.
-Definition ex_dir : dir := save nmA 5000 w_old (save nmB 90 w_new (store nmX [1; 2; 3] [])).
 Example C18_gc_nonvacuous :
   valid_name nmA = true /\ valid_name nmB = true /\ valid_name nmX = false /\
   lookup nmA (gc 100 ex_dir) = Some w_F /\ lookup nmB ex_dir <> None /\ lookup nmB (gc 100 ex_dir) = None /\
   lookup nmX (gc 100 ex_dir) = Some [1; 2; 3] /\
   fst (load 100 nmA ex_dir) = Some (5000%Z, w_old) /\ fst (load 100 nmB ex_dir) = None.
-Proof. repeat split; try (vm_compute; reflexivity). vm_compute. discriminate. Qed.
+Proof. exact ex_C18_gc_nonvacuous. Qed.
 
 (* ---- 6b. session_sid in front of the storage ---- *)
 Theorem C18_valid_sid_name : forall cookie id, valid_sid cookie = Some id ->
@@ -213,7 +197,30 @@ Print Assumptions C18_sid_load_spec.
 Example C18_sid_nonvacuous :
   valid_sid (73 :: nmA) = Some nmA /\ valid_sid (73 :: nmB) = None /\ valid_sid nmA = None /\
   fst (sid_load 100 (73 :: nmA) ex_dir) = Some (5000%Z, w_old) /\ fst (sid_load 5001 (73 :: nmA) ex_dir) = None.
-Proof. repeat split; vm_compute; reflexivity. Qed.
+Proof. exact ex_C18_sid_nonvacuous. Qed.
+
+(* ---- 6c. the buffer allocated from the size field (KNOWN FINDING garbage-size-field-bad-alloc) ---- *)
+(* after any history of saves and crashed saves the size field is 0 or the length of a saved payload *)
+Theorem C18_history_alloc_ok : forall ops limit now,
+  Forall op_ok ops -> (forall t d, In (t, d) (saves_of ops) -> N.of_nat (length d) <= limit) ->
+  alloc_fails limit now (cur (run ops)) = false.
+Proof. exact history_alloc_ok. Qed.
+Print Assumptions C18_history_alloc_ok.
+
+(* ... but a planted 19-byte file asks for 2 GiB: with 1 GiB available load throws, returns nothing, removes nothing,
+   and gc keeps the file; the statement that load always answers (value or no session, file removed) is refuted *)
+Theorem C18_garbage_alloc_refuted :
+  length g_file = 19%nat /\ alloc_fails (2 ^ 30) 1000 g_file = true /\ timestamp_ok 1000 g_file = true /\
+  forall nm, load_limited (2 ^ 30) 1000 nm [(nm, g_file)] = (LExc, [(nm, g_file)]).
+Proof. exact garbage_alloc_witness. Qed.
+Print Assumptions C18_garbage_alloc_refuted.
+
+Theorem C18_load_limited_enough : forall limit now nm d f,
+  lookup nm d = Some f -> hdr_size f <= limit ->
+  load_limited limit now nm d =
+    match load now nm d with (Some (t, x), d') => (LSome t x, d') | (None, d') => (LNone, d') end.
+Proof. exact load_limited_enough. Qed.
+Print Assumptions C18_load_limited_enough.
 
 (* ---- 7. tie: the CRC table found in private/crc32.h is the table of the bit model, and the
    byte-at-a-time loop of Crc32_ComputeBuf over it computes the model's crc32 ---- *)
@@ -229,5 +236,6 @@ Theorem C18_link_crc32 : forall l, bytes_ok l -> g_crc32 l = crc32 l.
 Proof. exact link_crc32. Qed.
 Print Assumptions C18_link_crc32.
 
-Example C18_link_crc32_nonvacuous : g_crc32 [49; 50; 51; 52; 53; 54; 55; 56; 57] = 3421780262 /\ crc32 w_new = crc32 w_mix.
-Proof. split; vm_compute; reflexivity. Qed.
+Example C18_link_crc32_nonvacuous :
+ g_crc32 [49; 50; 51; 52; 53; 54; 55; 56; 57] = 3421780262 /\ crc32 w_new = crc32 w_mix.
+Proof. exact ex_C18_link_crc32_nonvacuous. Qed.
